@@ -53,8 +53,10 @@ def apply(name: str, par: Dict[str, Any], ops: List[Any], model: bool):
 
     lib = numpy if model else numpoly
     a = ops[0]
+    # dtype= keyword: native library calls only (the exact carrier has no dtypes); the values must not depend on it
+    dkw = {"dtype": par["dtype"]} if (par.get("dtype") and not model and getattr(a, "dtype", None) is not None and a.dtype != object) else {}
     if name in ("sum", "prod"):
-        return getattr(lib, name)(a, axis=_ax(par.get("axis")), keepdims=par.get("keepdims", False))
+        return getattr(lib, name)(a, axis=_ax(par.get("axis")), keepdims=par.get("keepdims", False), **dkw)
     if name == "sum_method":
         return a.sum(axis=_ax(par.get("axis")), keepdims=par.get("keepdims", False))
     if name == "prod_method":
@@ -66,11 +68,11 @@ def apply(name: str, par: Dict[str, Any], ops: List[Any], model: bool):
     if name == "add.accumulate":
         return numpy.add.accumulate(a, axis=par.get("axis", 0))
     if name == "cumsum":
-        return lib.cumsum(a, axis=par.get("axis"))
+        return lib.cumsum(a, axis=par.get("axis"), **dkw)
     if name == "cumsum_method":
         return a.cumsum(axis=par.get("axis"))
     if name == "mean":
-        return lib.mean(a, axis=_ax(par.get("axis")))
+        return lib.mean(a, axis=_ax(par.get("axis")), **dkw)
     if name == "mean_method":
         return a.mean(axis=_ax(par.get("axis")))
     if name == "diff":
@@ -87,12 +89,14 @@ def apply(name: str, par: Dict[str, Any], ops: List[Any], model: bool):
         if par.get("to_begin") is not None:
             kw["to_begin"] = ops[par["to_begin"]]
         return lib.ediff1d(a, **kw)
+    if name == "multiply":
+        return lib.multiply(ops[0], ops[1], **dkw)
     if name == "inner":
         return lib.inner(ops[0], ops[1])
     if name == "outer":
         return lib.outer(ops[0], ops[1])
     if name == "matmul":
-        return lib.matmul(ops[0], ops[1])
+        return lib.matmul(ops[0], ops[1], **dkw)
     if name == "matmul_op":
         return ops[0] @ ops[1]
     if name == "det":
@@ -334,6 +338,13 @@ def gen_cases(tier: str, seed: int) -> List[Dict]:
         spec = S.make_poly_spec("a", nm, [[0]] if k >= 3 else [[0], [1]], (k, k), rng, 16, zero_prob=0.1, literal_prob=0.0, mode="raw")
         add("det", [spec], tag="-%dx%d" % (k, k))
         add("linalg.det", [S.make_poly_spec("a", nm, [[1]], (k, k), rng, 16, zero_prob=0.2, literal_prob=0.0, mode="raw")], tag="-%dx%d" % (k, k))
+    # dtype= keyword (values must not depend on it): float64 / float32 / int64 requested for integer operands
+    for dt in ("float64", "float32", "int64"):
+        add("matmul", [P((2, 2), "a", atoms=3, nterms=2, names=("q0", "q1")), P((2, 2), "b", atoms=3, nterms=1, names=("q1",))], {"dtype": dt}, tag="-dtype")
+        add("multiply", [P((2,), "a", atoms=2), P((2,), "b", atoms=2)], {"dtype": dt}, tag="-dtype")
+        add("sum", [P((2, 2), "a")], {"axis": 0, "keepdims": False, "dtype": dt}, tag="-dtype")
+        add("prod", [P((3,), "a", atoms=3, nterms=1)], {"axis": 0, "keepdims": False, "dtype": dt}, tag="-dtype")
+        add("cumsum", [P((3,), "a")], {"axis": 0, "dtype": dt}, tag="-dtype")
     for k in range(3):
         add("special", [], {"k": k}, tag="-values")
         cases[-1]["k"] = k
